@@ -194,7 +194,11 @@ def item_list(draw, depth, in_math=False, allow_par=True, in_list_env=False, max
         elif kind == 'item':
             opt = None
             if draw(st.integers(0, 2)) == 0:
-                opt = ['bracket', [], [['text', draw(st.sampled_from(['a', 'ab', '1.']))]]]
+                # a label: text, nothing at all (the idiom that suppresses the bullet), or something
+                # that renders to nothing
+                opt = ['bracket', [], draw(st.sampled_from([
+                    [['text', 'a']], [['text', 'ab']], [['text', '1.']], [], [['group', []]],
+                    [['macro', 'textbf', '', [['braced', [], []]]]], [['text', 'a']]]))]
             ps = draw(st.sampled_from(['', ' ', '\n'])) if opt is None else ''
             items.append(['macro', 'item', ps, [opt]])
         elif kind == 'env':
